@@ -37,11 +37,39 @@ def _is_flag_expr(e):
     return (isinstance(e, ast.Attribute) and e.attr == FLAG) or (isinstance(e, ast.Name) and e.id == FLAG)
 
 
+_CUR_FUNC = [None]       # function node whose locals _implies_flag may look through (set by _guarded)
+
+
+# functions all of whose returns imply the flag when truthy (wrappers around is_push0 / the flag); filled by _find_wrappers
+PREDICATE_WRAPPERS = set()
+
+
+def _find_wrappers(ctx):
+    PREDICATE_WRAPPERS.clear()
+    changed = True
+    while changed:
+        changed = False
+        for f in ctx.p.functions.values():
+            if f.name in PREDICATE_WRAPPERS or f.name == "is_push0":
+                continue
+            rets = [r for r in own_nodes(f.node) if isinstance(r, ast.Return)]
+            if rets and len(f.node.body) <= 3 and all(r.value is not None and _implies_flag(r.value, True) for r in rets):
+                PREDICATE_WRAPPERS.add(f.name)
+                changed = True
+    return sorted(PREDICATE_WRAPPERS)
+
+
 def _implies_flag(test, want):
     """(test == want) implies PUSH0 is allowed here: flag truthy, is_push0(...) truthy, or something already is PUSH0."""
     if _is_flag_expr(test):
         return want
-    if isinstance(test, ast.Call) and call_name(test) == "is_push0":
+    if isinstance(test, ast.Name) and _CUR_FUNC[0] is not None:
+        # a local that holds a boolean expression computed once
+        from ..core.flow import single_assignments
+        defs = single_assignments(_CUR_FUNC[0]).get(test.id, [])
+        if len(defs) == 1 and defs[0][2] is None and not isinstance(defs[0][1], ast.Name):
+            return _implies_flag(defs[0][1], want)
+    if isinstance(test, ast.Call) and (call_name(test) == "is_push0" or call_name(test) in PREDICATE_WRAPPERS):
         return want
     if isinstance(test, ast.Compare) and len(test.ops) == 1:
         sides = [test.left, test.comparators[0]]
@@ -99,6 +127,14 @@ def _classify(lit):
 
 def _guarded(ctx, f, lit):
     """Is the literal control-dependent on the flag?  IfExp arms first, then statement-level branches (CFG)."""
+    _CUR_FUNC[0] = f.node
+    try:
+        return _guarded_inner(ctx, f, lit)
+    finally:
+        _CUR_FUNC[0] = None
+
+
+def _guarded_inner(ctx, f, lit):
     cur, child = getattr(lit, "_parent", None), lit
     while cur is not None and not isinstance(cur, ast.stmt):
         if isinstance(cur, ast.IfExp):
@@ -163,10 +199,15 @@ def rule_a(ctx, out):
                                 f"later calls of _set_push0 are not seen by this module", f"{m.rel}:{n.lineno}")
     # every read is an attribute read on the constants module (or inside constants itself)
     reads = 0
+    readers = set()
     for m in ctx.p.modules.values():
         for n in ast.walk(m.tree):
             if isinstance(n, ast.Attribute) and n.attr == FLAG and isinstance(n.ctx, ast.Load):
                 reads += 1
+                cur = n
+                while cur is not None and not isinstance(cur, (ast.FunctionDef, ast.AsyncFunctionDef)):
+                    cur = getattr(cur, "_parent", None)
+                readers.add((m.name, cur.name if cur is not None else "<module>"))
                 kind, q = ctx.r.resolve_attr_chain(m.name, n.value) if isinstance(n.value, ast.Attribute) else \
                     ctx.r.resolve_name(m.name, n.value.id) if isinstance(n.value, ast.Name) else (None, None)
                 if kind == "module" and q == CONST_MOD:
@@ -175,9 +216,10 @@ def rule_a(ctx, out):
                     out.bad(f"flag-read-from-other-module:{m.name}", f"{norm(n)} resolves to module {q}, not {CONST_MOD}", f"{m.rel}:{n.lineno}")
                 else:
                     reads -= 1   # an attribute of some object (e.g. the argparse namespace), not the module flag
-    out.samples.append({"flag_reads": reads})
-    if reads < 4:
-        raise AnalysisError(f"only {reads} reads of constants.{FLAG} found; expected the parser, is_push0 and the push generator")
+    out.samples.append({"flag_reads": reads, "reading_functions": sorted(f"{a}.{b}" for a, b in readers)})
+    need = {"build_asm_bytecode", "is_push0", "generate_push_instruction"}
+    if not need <= {b for _, b in readers} and not out.findings:
+        raise AnalysisError(f"constants.{FLAG} is read in {sorted(b for _, b in readers)}; expected at least the parser, is_push0 and the push generator")
     # setter called before any parse / optimise call in execute_gasol on every path
     f = ctx.func("gasol_asm.execute_gasol")
     cfg = ctx.cfg(f)
@@ -215,6 +257,7 @@ def rule_a(ctx, out):
 
 # --------------------------------------------------------------------------------------------------- C17.b
 def rule_b(ctx, out):
+    out.info["predicate_wrappers"] = _find_wrappers(ctx)
     n_lits = 0
     for m in ctx.p.modules.values():
         if m.name.startswith(("verification.forves", "statistics")):
@@ -299,25 +342,48 @@ def rule_c(ctx, out):
     size0, gas0 = table_price(ctx, "PUSH0")
     out.info["table_price_PUSH0"] = {"size": size0, "gas": gas0}
     cls = ctx.p.cls("sfs_generator.asm_bytecode.AsmBytecode")
-    expect = {"bytes_required": size0, "gas_spent": gas0, "gas_spent_accesses": gas0, "to_plain": "PUSH0", "to_plain_with_byte_number": "PUSH0"}
-    for m, val in expect.items():
-        fi = cls.methods.get(m)
-        if fi is None:
-            raise AnalysisError(f"AsmBytecode.{m} not found")
-        body = [s for s in fi.node.body if not (isinstance(s, ast.Expr) and isinstance(s.value, ast.Constant))]
-        first = body[0] if body else None
-        ok_test = isinstance(first, ast.If) and any(
-            len(c.args) == 2 and norm(c.args[0]) == "self.disasm" and norm(c.args[1]) == "self.value" for c in calls_in(first.test, "is_push0"))
-        if not ok_test:
-            out.bad(f"AsmBytecode.{m}:zero-push-predicate", f"AsmBytecode.{m} does not start with `if is_push0(self.disasm, self.value)`", where(fi))
-            continue
-        rets = [r for r in first.body if isinstance(r, ast.Return)]
-        if len(rets) == 1 and isinstance(rets[0].value, ast.Constant) and rets[0].value.value == val:
-            out.ok({"method": fi.qual, "under_is_push0_returns": val})
+    # The item's own methods, evaluated abstractly (own interpreter; helper methods and wrappers are followed) on a zero push, an
+    # ordinary one-byte push, a genuine PUSH0 item and a non-push item, with the flag on and off.
+    from ..core.interp import ModuleInterp
+    from ..core.minieval import Unsupported, Raised
+    mi = ModuleInterp(ctx, max_steps=100000)
+    Item = mi.fake_class(cls)
+
+    def item(disasm, value):
+        return Item(disasm=disasm, value=value, real_value=value, jump_type=None, modifier_depth=None, begin=0, end=0, source=0)
+
+    def obs(it, flag):
+        mi.module_env("global_params.constants")["push0_enabled"] = flag
+        try:
+            return {"bytes_required": it.bytes_required, "gas_spent": it.gas_spent, "gas_spent_accesses": it.gas_spent_accesses(False, False),
+                    "to_plain": it.to_plain(), "to_plain_with_byte_number": it.to_plain_with_byte_number()}
+        except Raised as e:
+            return {"raises": e.what}
+        except Unsupported as e:
+            raise AnalysisError(f"AsmBytecode price/spelling methods: cannot evaluate abstractly: {e}")
+    zero_on, zero_off = obs(item("PUSH", "0"), True), obs(item("PUSH", "0"), False)
+    one_on, one_off = obs(item("PUSH", "1"), True), obs(item("PUSH", "1"), False)
+    add_on, add_off = obs(item("ADD", None), True), obs(item("ADD", None), False)
+    expect_on = {"bytes_required": size0, "gas_spent": gas0, "gas_spent_accesses": gas0, "to_plain": "PUSH0", "to_plain_with_byte_number": "PUSH0"}
+    for m, val in expect_on.items():
+        if zero_on.get(m) == val:
+            out.ok({"method": f"AsmBytecode.{m}", "zero push with the flag on": val})
         else:
-            got = norm(rets[0].value) if rets else "nothing"
-            out.bad(f"AsmBytecode.{m}:zero-push-price", f"under is_push0 AsmBytecode.{m} returns {got}; the table entry for PUSH0 is {val!r}",
-                    where(fi, first))
+            out.bad(f"AsmBytecode.{m}:zero-push-price" if m in ("bytes_required", "gas_spent", "gas_spent_accesses") else f"AsmBytecode.{m}:zero-push-predicate",
+                    f"with PUSH0 enabled AsmBytecode.{m} of `PUSH 0` is {zero_on.get(m, zero_on)!r}; a PUSH0 instruction is {val!r}", where(cls.methods[m]))
+        # flag off: a zero push is an ordinary one-byte push
+        want = one_off.get(m)
+        if m.startswith("to_plain"):
+            want = (want[:want.rfind("1")] + "0" + want[want.rfind("1") + 1:]) if isinstance(want, str) and "1" in want else want
+        if zero_off.get(m) == want and (not isinstance(want, str) or "PUSH0" not in want):
+            out.ok({"method": f"AsmBytecode.{m}", "zero push with the flag off": zero_off.get(m)})
+        else:
+            out.bad(f"AsmBytecode.{m}:zero-push-predicate", f"with PUSH0 disabled AsmBytecode.{m} of `PUSH 0` is {zero_off.get(m, zero_off)!r}; an ordinary one-byte push "
+                    f"gives {want!r}", where(cls.methods[m]))
+        if one_on.get(m) == one_off.get(m) and add_on.get(m) == add_off.get(m):
+            out.ok()
+        else:
+            out.bad(f"AsmBytecode.{m}:flag-changes-other-items", f"AsmBytecode.{m} of `PUSH 1` / `ADD` depends on the PUSH0 flag", where(cls.methods[m]))
     # is_push0 itself: flag and PUSH and "0"
     ip = ctx.func("sfs_generator.asm_bytecode.is_push0")
     rets = [r for r in own_nodes(ip.node) if isinstance(r, ast.Return)]
@@ -338,67 +404,84 @@ def rule_c(ctx, out):
         out.ok({"build_asm_bytecode": norm(tests[0].test)})
     else:
         out.bad("build_asm_bytecode:predicate-differs-from-is_push0", "the parser's PUSH0 test is not `flag and name == 'PUSH' and value == '0'`", where(bb))
-    # specification record of a push: every price / spelling field switches on the same condition
+    # specification record of a pushed constant: evaluated abstractly for a zero and a non-zero value with the flag on and off —
+    # every spelling / price field follows the flag together
     gp = ctx.func("sfs_generator.gasol_optimization.generate_push_instruction")
-    fields = {}
-    for n in own_nodes(gp.node):
-        if isinstance(n, ast.Assign) and isinstance(n.targets[0], ast.Subscript) and isinstance(n.targets[0].slice, ast.Constant):
-            fields[n.targets[0].slice.value] = n
-    conds = {}
+    GOm = "sfs_generator.gasol_optimization"
+    mi2 = ModuleInterp(ctx, max_steps=100000)
+
+    def rec(value, flag):
+        mi2.module_env("global_params.constants")["push0_enabled"] = flag
+        try:
+            return mi2.call(gp, 3, value, "s(9)")
+        except (Unsupported, Raised) as e:
+            raise AnalysisError(f"generate_push_instruction: cannot evaluate abstractly: {e}")
+    zero_on, zero_off, five_on, five_off = rec(0, True), rec(0, False), rec(5, True), rec(5, False)
+    cost = ctx.func("sfs_generator.opcodes.get_ins_cost")
+    size = ctx.func("sfs_generator.utils.get_ins_size")
+    want0 = {"id": "PUSH0_3", "disasm": "PUSH0", "gas": mi2.call(cost, "PUSH0"), "size": mi2.call(size, "PUSH0")}
     for k in ("id", "opcode", "disasm", "gas", "size"):
-        n = fields.get(k)
-        if n is None:
+        if k not in zero_on:
             raise AnalysisError(f"generate_push_instruction: field {k} not assigned")
-        if isinstance(n.value, ast.IfExp) and (_implies_flag(n.value.test, False) or _implies_flag(n.value.test, True)):
-            conds[k] = norm(n.value.test)
+        problems = []
+        if k in want0 and zero_on[k] != want0[k]:
+            problems.append(f"with PUSH0 enabled a pushed zero has {k} = {zero_on[k]!r}, a PUSH0 instruction has {want0[k]!r}")
+        if k == "opcode" and zero_on[k] == zero_off[k]:
+            problems.append("the opcode byte of a pushed zero does not change with the flag")
+        if k in ("id", "disasm") and "PUSH0" in str(zero_off[k]):
+            problems.append(f"with PUSH0 disabled a pushed zero has {k} = {zero_off[k]!r}")
+        if k in ("opcode", "disasm", "gas") and five_on[k] != five_off[k] or k in ("opcode", "disasm", "gas") and zero_off[k] != five_off[k]:
+            problems.append(f"{k} of an ordinary push depends on the flag / on the value")
+        if problems:
+            out.bad(f"generate_push_instruction:field-ignores-push0:{k}", f"record field \"{k}\" of a pushed constant: " + "; ".join(problems), where(gp),
+                    {"zero_flag_on": {x: zero_on.get(x) for x in ("id", "opcode", "disasm", "gas", "size")}})
         else:
-            conds[k] = None
-    switching = {k: c for k, c in conds.items() if c is not None}
-    if not switching:
-        raise AnalysisError("generate_push_instruction: no field switches on the PUSH0 flag")
-    ref = sorted(set(switching.values()))
-    for k, c in conds.items():
-        if c is None:
-            out.bad(f"generate_push_instruction:field-ignores-push0:{k}", f"record field \"{k}\" of a pushed constant does not depend on the PUSH0 "
-                    f"switch while {sorted(switching)} do: a zero push spelt PUSH0 is priced/encoded as PUSH1 0 in this field",
-                    where(gp, fields[k]), {"conditions": conds})
-        elif len(ref) > 1 and c != ref[0] and list(switching.values()).count(c) < len(switching) / 2:
-            out.bad(f"generate_push_instruction:field-uses-other-condition:{k}", f"field \"{k}\" switches on `{c}`, the others on `{ref}`", where(gp, fields[k]))
-        else:
-            out.ok({"field": k, "condition": c})
+            out.ok({"field": k, "zero_push_flag_on": zero_on[k], "zero_push_flag_off": zero_off[k]})
 
 
 # --------------------------------------------------------------------------------------------------- C17.d
+def _bool_form(e):
+    """A test as a propositional formula: returns (eval(assignment) -> bool, set of atoms).  x != y and x == y share one atom, as do
+    `x is None` / `x is not None`; not / and / or are interpreted; everything else is an opaque atom."""
+    if isinstance(e, ast.UnaryOp) and isinstance(e.op, ast.Not):
+        f, at = _bool_form(e.operand)
+        return (lambda a: not f(a)), at
+    if isinstance(e, ast.BoolOp):
+        parts = [_bool_form(v) for v in e.values]
+        atoms = set().union(*[p[1] for p in parts])
+        if isinstance(e.op, ast.And):
+            return (lambda a: all(p[0](a) for p in parts)), atoms
+        return (lambda a: any(p[0](a) for p in parts)), atoms
+    if isinstance(e, ast.Compare) and len(e.ops) == 1:
+        op = e.ops[0]
+        l, r = norm(e.left), norm(e.comparators[0])
+        if isinstance(op, (ast.Eq, ast.NotEq)):
+            atom = ("eq",) + tuple(sorted((l, r)))
+            return ((lambda a: a[atom]) if isinstance(op, ast.Eq) else (lambda a: not a[atom])), {atom}
+        if isinstance(op, (ast.Is, ast.IsNot)) and r == "None":
+            atom = ("none", l)
+            return ((lambda a: a[atom]) if isinstance(op, ast.Is) else (lambda a: not a[atom])), {atom}
+    atom = ("atom", norm(e))
+    return (lambda a: bool(a[atom])), {atom}
+
+
 def _implies_selected(test, want, loop_var):
-    """(test == want) implies NOT (a contract was requested and this one is a different one)."""
-    def is_mismatch(e):
-        return isinstance(e, ast.Compare) and len(e.ops) == 1 and isinstance(e.ops[0], ast.NotEq) and _sides(e)
-
-    def is_match(e):
-        return isinstance(e, ast.Compare) and len(e.ops) == 1 and isinstance(e.ops[0], ast.Eq) and _sides(e)
-
-    def _sides(e):
-        txt = {norm(e.left), norm(e.comparators[0])}
-        return any(t.endswith(".contract") for t in txt) and any(t.startswith(loop_var + ".") for t in txt)
-
-    def is_requested(e):
-        return isinstance(e, ast.Compare) and len(e.ops) == 1 and isinstance(e.ops[0], ast.IsNot) and norm(e.left).endswith(".contract") \
-            and isinstance(e.comparators[0], ast.Constant) and e.comparators[0].value is None
-
-    if is_mismatch(test):
-        return not want
-    if is_match(test):
-        return want
-    if isinstance(test, ast.UnaryOp) and isinstance(test.op, ast.Not):
-        return _implies_selected(test.operand, not want, loop_var)
-    if isinstance(test, ast.BoolOp):
-        if isinstance(test.op, ast.And):
-            if want:
-                return any(_implies_selected(v, True, loop_var) for v in test.values)
-            return all(is_mismatch(v) or is_requested(v) for v in test.values) and any(is_mismatch(v) for v in test.values)
-        if not want:
-            return any(_implies_selected(v, False, loop_var) for v in test.values)
-    return False
+    """(test == want) implies NOT (a contract was requested and this one is a different one) — decided by truth table."""
+    import itertools
+    f, atoms = _bool_form(test)
+    match = [a for a in atoms if a[0] == "eq" and any(t.endswith(".contract") for t in a[1:]) and any(t.startswith(loop_var + ".") for t in a[1:])]
+    none = [a for a in atoms if a[0] == "none" and a[1].endswith(".contract")]
+    if not match or len(atoms) > 8:
+        return False
+    atoms = sorted(atoms)
+    for vals in itertools.product((False, True), repeat=len(atoms)):
+        asg = dict(zip(atoms, vals))
+        if f(asg) != want:
+            continue
+        requested = (not asg[none[0]]) if none else True
+        if requested and not asg[match[0]]:
+            return False
+    return True
 
 
 def rule_d(ctx, out):
@@ -442,7 +525,7 @@ def rule_d(ctx, out):
 
 
 RULES = [
-    ("C17.a", "PUSH0 flag discipline", 12, rule_a),
+    ("C17.a", "PUSH0 flag discipline", 10, rule_a),
     ("C17.b", "who may produce the PUSH0 spelling", 12, rule_b),
     ("C17.c", "one predicate, one price for both spellings of a zero push", 10, rule_c),
     ("C17.d", "contract filter", 3, rule_d),
